@@ -147,6 +147,18 @@ def analyse(prog, f, c, what):
     return res
 
 
+def _consumes_storage(prog, root, depth):
+    """root takes `self` by value, or is a private helper all of whose callers do"""
+    if root.argc >= 1 and not root.locals[1]['s'].startswith('&') and 'Storage<' in root.locals[1]['s']:
+        return True
+    if depth <= 0 or root.is_pub:
+        return False
+    cs = [c for c in core.call_sites_of(prog, root.id) if c.name != 'poll']
+    if not cs:
+        return False
+    return all(_consumes_storage(prog, prog.fns[prog.fns[c.fn.id].root], depth - 1) for c in cs)
+
+
 def dropped_rule(ctx, rid):
     """a blob moved out of the active slot / the closed list is never silently dropped: every non-error exit reachable from the
     move-out passes a hand-back (or returns the value); `if let Some(..)` None edges carry nothing.  Functions that consume the
@@ -159,8 +171,8 @@ def dropped_rule(ctx, rid):
         n += 1
         root = prog.fns[prog.fns[f.id].root]
         key = 'moved-out-blob-kept|%s|%s' % (what, root.id)
-        if root.argc >= 1 and not root.locals[1]['s'].startswith('&'):
-            ctx.ok(rid, key, c.where(), 'the function consumes `self` (%s): the storage ceases to exist' % root.locals[1]['s'][:40], nontrivial=False)
+        if _consumes_storage(prog, root, 3):
+            ctx.ok(rid, key, c.where(), 'the function (or every caller of this helper) consumes `self`: the storage ceases to exist', nontrivial=False)
             continue
         r = analyse(prog, f, c, what)
         if r['dropped']:
